@@ -247,54 +247,77 @@ R.add('L12.6', l126, [{}], desc='ServerContext setters', expect=['ServerContext 
 
 # ------------------------------------------------------------------ L12.7 server sweep with configured timeouts (real loop)
 def l127():
-    """settings made on the ServerContext before the server starts are the ones the real loop uses: a client
-    that goes silent is dropped (disconnect event) at the first tick at which its silence has reached the
-    configured connection timeout, and not before; new connections get the configured keep-alive interval and
-    message timeout"""
+    """settings made on the ServerContext before the server starts are the ones the real loop uses.  Two clients connect;
+    from tick 5 on the first one is silent while the second keeps answering every tick; the clock advances by an arbitrary
+    step per tick (each step shorter than the timeout, so the talking client is never silent that long).  The silent client
+    is dropped (disconnect event, removed from the pool) at the first tick at which its silence has reached the configured
+    connection timeout and not before; the talking client stays.  New connections get the configured keep-alive interval
+    and message timeout."""
     from . import loop
     T = symreal('connection_timeout', lo=0.5, hi=50)
     ka = symreal('keep_alive', lo=0.05, hi=0.4)
     mt = symreal('message_timeout', lo=0.5, hi=50)
-    D = symreal('silence', lo=0, hi=100)
-    state = {}
+    state = {'silence': {}, 'pool': {}}
 
     def script(world, tick):
         if tick == 1:
-            state['b'] = loop.Peer(world, ('10.0.0.2', 5002))
-            state['b'].c._sendClientHello()
-            world.inject(state['b'].emit(), state['b'].addr)
+            for key, addr in (('b', ('10.0.0.2', 5002)), ('o', ('10.0.0.3', 5003))):
+                state[key] = loop.Peer(world, addr)
+                state[key].c._sendClientHello()
+                world.inject(state[key].emit(), addr)
             return
-        b = state['b']
+        b, o = state['b'], state['o']
         if tick <= 4:
-            b.absorb()
-            raw = b.emit()
-            if raw is not None:
-                world.inject(raw, b.addr)
+            for p_ in (b, o):
+                p_.absorb()
+                raw = p_.emit()
+                if raw is not None:
+                    world.inject(raw, p_.addr)
+            return
         if tick == 5:
-            sb = world.ctxt.connections.get(b.addr)
-            if sb is not None:
-                state['sb'] = sb
-                state['last_recv'] = sb.last_recv_time
-                world.clock.advance(D)             # the client is silent for D seconds
-                state['silence'] = world.clock.now - sb.last_recv_time
-        if tick == 6:
-            state['dropped_at_6'] = any(e[0] == 'disconnect' for e in world.handler.events)
+            state['sb'] = world.ctxt.connections.get(b.addr)
+            state['so'] = world.ctxt.connections.get(o.addr)
+        # what the previous sweep left behind
+        state['pool'][tick] = (b.addr in world.ctxt.connections, o.addr in world.ctxt.connections)
+        if tick <= 7 and state.get('sb') is not None and state.get('so') is not None:
+            dt = symreal('dt%d' % tick, lo=0, hi=60)
+            assume(dt + 0.05 < T)                  # the talking client is heard again before its own silence reaches T
+            world.clock.advance(dt)
+            state['silence'][tick] = world.clock.now - state['sb'].last_recv_time
+            o.absorb()
+            o.c.send(b'still here', RetryMode.NONE, None)
+            raw = o.emit()
+            if raw is not None:
+                world.inject(raw, o.addr)
 
-    world = loop.World(6, script)
+    world = loop.World(9, script)
     world.ctxt.setConnectionTimeout(T)
     world.ctxt.setKeepAliveInterval(ka)
     world.ctxt.setMessageTimeout(mt)
     world.run()
     check(world.escaped is None, 'loop ran')
-    check('sb' in state, 'client connected before going silent')
-    sb = state['sb']
+    check(state.get('sb') is not None and state.get('so') is not None, 'both clients connected before one goes silent')
+    sb, so = state['sb'], state['so']
     check(And(sb.send_keep_alive_interval == ka, sb.outgoing_timeout == mt), 'new connections use the configured keep-alive interval and message timeout')
-    silence = state['silence']
-    check(Iff(silence >= T, state.get('dropped_at_6', False)), 'a silent client is dropped exactly when its silence has reached the configured connection timeout')
+    gone = False
+    for tick in (5, 6, 7):
+        if tick not in state['silence'] or tick + 1 not in state['pool']:
+            continue
+        expired = bool(Or(gone, state['silence'][tick] >= T))
+        in_pool, other_in_pool = state['pool'][tick + 1]
+        check(in_pool == (not expired), 'a silent client is dropped exactly when its silence has reached the configured connection timeout', tick=tick)
+        check(other_in_pool, 'a client that keeps talking stays connected while another client is dropped', tick=tick)
+        gone = expired
+    ev = world.handler.events
+    sd = [i for i, e in enumerate(ev) if e[0] == 'shutdown']
+    check(len([e for e in ev if e[0] == 'disconnect' and e[1] is sb]) == 1, 'exactly one disconnect event for the silent client')
+    od = [i for i, e in enumerate(ev) if e[0] == 'disconnect' and e[1] is so]
+    check(len(od) == 1, 'the talking client is disconnected once (at shutdown)')
 
 
 R.add('L12.7', l127, [{}], desc='real server loop: configured connection timeout / keep-alive / message timeout are the ones used',
       expect=['a silent client is dropped exactly when its silence has reached the configured connection timeout',
+              'a client that keeps talking stays connected while another client is dropped',
               'new connections use the configured keep-alive interval and message timeout'])
 
 
